@@ -117,6 +117,12 @@ func GenPlan(r *rand.Rand, ncells int, pf Profile, tag string) *PNode {
 	if pf.Cache && r.Intn(3) == 0 {
 		all[r.Intn(len(all))].TimerU = 1000 + r.Intn(4000)
 	}
+	// a goroutine that outlives its computation and registers a dependency late
+	if r.Intn(4) == 0 {
+		n := all[r.Intn(len(all))]
+		n.LateCell = 1 + r.Intn(ncells)
+		n.LateUS = r.Intn(600)
+	}
 	// planned failures: at most 3 retries and at most one fatal per rerunner
 	nretry := r.Intn(4)
 	if r.Intn(3) == 0 {
@@ -183,13 +189,15 @@ func GenRandom(r *rand.Rand, pf Profile) *Scenario {
 		n := 3 + r.Intn(8)
 		for k := 0; k < n; k++ {
 			switch x := r.Intn(20); {
-			case x < 11:
+			case x < 10:
 				c := r.Intn(sc.Cells)
 				st := pref[c]
 				if st == "" || r.Intn(5) == 0 {
 					st = styleFor(r)
 				}
 				ops = append(ops, Op{Kind: "write", Cell: c, Style: st})
+			case x < 12:
+				ops = append(ops, Op{Kind: "plainread", Cell: r.Intn(sc.Cells)})
 			case x < 14:
 				ops = append(ops, Op{Kind: "sleep", US: r.Intn(700)})
 			case x < 17:
@@ -299,6 +307,7 @@ func GenMatrix(r *rand.Rand, m MatrixCell, pf Profile) *Scenario {
 	if r.Intn(2) == 0 {
 		root1.Cond = []CondLeaf{{On: 0, Then: 4}}
 	}
+	root1.LateCell, root1.LateUS = 1+r.Intn(2), r.Intn(500) // late registration on shared cell 0 or 1
 	root2 := &PNode{Name: "r2", Leaves: []int{1, 0}}
 	sc.RRs = []*RRSpec{
 		{Plan: root0, Spawn: m.Spawn, MinInterval: 200 + r.Intn(400)},
@@ -316,6 +325,8 @@ func GenMatrix(r *rand.Rand, m MatrixCell, pf Profile) *Scenario {
 		ops = append(ops, Op{Kind: "write", Cell: 1, Style: WStrobe}, Op{Kind: "sleep", US: sc.WTRDelayUS/4 + r.Intn(sc.WTRDelayUS/2+1)})
 	}
 	ops = append(ops, Op{Kind: "stop", RR: 2})
+	// non-reactive readers of resources that live computations hold
+	ops = append(ops, Op{Kind: "plainread", Cell: 0}, Op{Kind: "plainread", Cell: 1}, Op{Kind: "plainread", Cell: 3}, pace())
 	if pf.Cache {
 		ops = append(ops, Op{Kind: "purge", RR: 0}, Op{Kind: "write", Cell: 0, Style: WInvalidate}, pace())
 	}
